@@ -7,9 +7,9 @@ CFG = {
                  "programs: only `tolerate` can catch, and only ENOENT) + fault enumeration as the tie to the code: an LD_PRELOAD "
                  "shim fails the k-th libc call beneath the temp prefix at every position of the real call list",
     "level_text": "Theorems, stated once for the program language (every program, every semantics of the primitives over any state "
-                  "type, every fault position k and errno) and instantiated for the 22 modelled operations (struct-API cached_layer / "
+                  "type, every fault position k and errno) and instantiated for the 24 modelled operations (struct-API cached_layer with constant callbacks and with callbacks that are functions of the data read from disk (handleLayerD: any invalid_metadata_action / restored_layer_action; cached-migrate = a real migration of the old metadata) / "
                   "uncached_layer, LayerRef::write_metadata/env/sboms/exec_d_programs, trait-API handle_layer create/update/keep/"
-                  "recreate/migrate, LayerEnv::write_to_layer_dir, detect writing the build plan, build reading store.toml and writing "
+                  "recreate/migrate and tHandleD with existing_layer_strategy / update / migrate_incompatible_metadata as functions of the LayerData read back, LayerEnv::write_to_layer_dir, detect writing the build plan, build reading store.toml and writing "
                   "launch.toml/store.toml/SBOM files): fault_propagates — a fault at any call the fault-free run makes returns the "
                   "error, except ENOENT at a call inside `tolerate` (= default_on_not_found); success_only_fault_free — a run that "
                   "returns ok is the fault-free run (same result, same final state, same calls); hence Spec.Fault.FailureIsReported / "
@@ -21,7 +21,7 @@ CFG = {
                   "is what the fault enumeration samples: for every (operation, prepared state) pair and every position of the REAL "
                   "libc call list x {EIO, EACCES, ENOSPC} the real call must return Err (phase: exit != 0) or leave a directory "
                   "byte- and mode-identical to the fault-free one.",
-    "level_note": "Partial. Proof = program layer only; the enumeration is the tie, not a proof about the Rust code. Outside the "
+    "level_note": "Partial. Proof = program layer only; the enumeration is the tie, not a proof about the Rust code. A read whose failure is turned into a legitimate value (unwrap_or_default: no metadata) and handed to a buildpack callback is visible to the spec oracle only if the callback's answer depends on that value; cached-migrate / t-migrate use such callbacks for every read that feeds a decision (typed and generic read of <layer>.toml, env files and process directories read back). With the constant callbacks of the other operations such a change shows only as a model disagreement. Reads that feed no callback and no write-back (the env read before Recreate / after the final re-read, the re-read of create_layer) stay masked: the directory is the same whatever they return, which the property allows. Outside the "
                   "quantifier: failing statx-based probes (Path::exists / is_dir), readdir, close; ENOENT at the best-effort deletes "
                   "(tagged enoent-at-delete, run to show where the tolerance sits, never judged); partial effects of a failed call "
                   "(the model leaves the state unchanged; the theorems allow any). Inputs libcnb keeps in a HashMap (exec.d programs, "
@@ -33,19 +33,19 @@ CFG = {
                   "harness/shim/faultfs.c (interposition checked on every run: the injected call must be the k-th call of the "
                   "fault-free log and carry the INJ mark); harness c12.rs / c12op.rs; tbp.rs for the phases.",
     "shrink": [],
-    "rule": "quick: 83 (operation, prepared state) pairs (31 operations, 2731 real call positions -> 8193 fault points; layer states absent / orphan toml / bare dir / restored-min / "
+    "rule": "quick: 93 (operation, prepared state) pairs (33 operations, 3199 real call positions -> 9597 fault points; layer states absent / orphan toml / bare dir / restored-min / "
             "typed / full (env, env.build, env.launch + process dir, exec.d, bin, nested data, two SBOM files) / invalid metadata / "
-            "broken toml, and - so that every loop of the code runs more than once and a fault can hit its 2nd iteration - rich (2-3 files in "
+            "broken toml / stale (decodes as M with a value the data-dependent callbacks reject: v = 7), and - so that every loop of the code runs more than once and a fault can hit its 2nd iteration - rich (2-3 files in "
             "every env directory, two process directories with two files each, two exec.d programs, three files in nested data, all three SBOM "
             "formats), richinv (the same with undecodable metadata), spdx (only the middle SBOM format present), wide (33 files in the layer, "
             "21 env files, 17 exec.d programs), emptyvals (an env file and an SBOM without bytes); phase states clean / existing outputs; "
             "operations incl. write_env with several entries per scope and two process types, write_sboms of all three formats / only spdx / "
             "an SBOM without bytes, write_exec_d_programs with three programs, trait-API create/update results of that size, a build result "
-            "with all six SBOM files); per pair one trace case (fault-free: result, set of libc-level "
+            "with all six SBOM files; cached-migrate on min / invalid / richinv / broken / stale and t-migrate on min / full / invalid / richinv / stale: callbacks that are functions of what libcnb read - invalid_metadata_action and migrate_incompatible_metadata migrate the old metadata { w } to V { v: w + 10 } and delete / recreate when there is nothing to migrate from, restored_layer_action keeps v = 1 or v > 10 and deletes otherwise, existing_layer_strategy keeps a migrated layer, updates a current one whose env read back sets FOO (update writes v + 3), keeps it otherwise and recreates any other - so a read error presented to a callback as empty data ends in Ok with a different directory = a spec failure, not only a model disagreement); per pair one trace case (fault-free: result, set of libc-level "
             "calls as class:path:result, prepared and final snapshot - all four compared with the model's fault-free run) and, for "
             "EVERY position k of the real call list (file opens, directory opens, writes, reads, mkdir, unlink, rmdir, chmod, copy), one fault "
             "case per errno in {EIO, EACCES, ENOSPC}, plus ENOENT at every "
-            "delete-type call (unlink, rmdir, chmod, opendir). thorough: every operation on every prepared state (345 pairs, 10144 positions -> 30432 fault "
+            "delete-type call (unlink, rmdir, chmod, opendir). thorough: every operation on every prepared state (400 pairs, 11762 positions -> 35286 fault "
             "points), same enumeration. Positions come from the real trace; the children run with a fixed getrandom pattern so that the "
             "iteration order of libcnb's HashMaps (process env deltas, exec.d programs) is the same in the fault-free and the faulted run. "
             "The model is asked by CLASS of the failed call, not by position: the "
